@@ -100,7 +100,7 @@ def parseDS (s : String) : Option (Option DS) :=
 def parseDSList (s : String) : Option (List (Option DS)) := (listOf s ",").mapM parseDS
 
 structure State where
-  env : Env := { networkId := 0, chainId := 0, globalMaxBlockSize := 256 * 1000 * 1000, committeeAt := fun _ => none,
+  env : Env := { networkId := 0, chainId := 0, rootHeight := 0, globalMaxBlockSize := 256 * 1000 * 1000, committeeAt := fun _ => none,
                  minEvidenceAt := fun _ => none, alreadySlashed := fun _ _ => false }
   qcs : List (String × QC) := []
   pool : List String := []          -- evidence descriptors accepted by `add` (the de-duplicator)
@@ -137,6 +137,7 @@ def step (st : State) (line : String) : State × String :=
     let r : Option State := do
       let net ← (field rest "net") >>= u64
       let chain ← (field rest "chain") >>= u64
+      let root ← (field rest "root") >>= u64
       let coms ← (field rest "coms") >>= parseComs
       let mins ← (field rest "mins") >>= fun s => (listOf s ",").mapM fun m =>
         match m.splitOn ":" with
@@ -146,10 +147,9 @@ def step (st : State) (line : String) : State × String :=
         match m.splitOn "@" with
         | [k, h] => do let k ← ofHex k; let h ← u64 h; pure (k, h)
         | _ => none
-      pure { st with env := { networkId := net, chainId := chain, globalMaxBlockSize := 256 * 1000 * 1000,
+      pure { st with env := { networkId := net, chainId := chain, rootHeight := root, globalMaxBlockSize := 256 * 1000 * 1000,
                               committeeAt := fun r => coms.lookup r, minEvidenceAt := fun r => mins.lookup r,
-                              alreadySlashed := fun k h => slashed.contains (k, h) },
-                     qcs := [], pool := [] }
+                              alreadySlashed := fun k h => slashed.contains (k, h) } }
     match r with
     | some s => (s, "ok")
     | none => (st, "bad-op")
